@@ -236,6 +236,8 @@ func genUaTypes(repo string) (string, string, error) {
 	fmt.Fprintf(&b, "Definition all_structs : list ty := [%s].\n\n", strings.Join(all, "; "))
 	fmt.Fprintf(&b, "Definition go_null : Z := %d.\nDefinition go_f32qnan : Z := %d.\nDefinition go_f64qnan : Z := %d.\n", uint64(ua.VerifNull), uint64(ua.VerifF32QNaN), uint64(ua.VerifF64QNaN))
 	fmt.Fprintf(&b, "Definition go_MaxVariantArrayLength : Z := %d.\n", ua.MaxVariantArrayLength)
+	fmt.Fprintf(&b, "Definition go_MaxVariantArrayDimensions : Z := %d.\n", ua.MaxVariantArrayDimensions)
+	fmt.Fprintf(&b, "Definition go_MaxNestingLevel : nat := %d.\n", ua.MaxNestingLevel)
 	fmt.Fprintf(&b, "Definition go_variant_masks : list Z := [%d; %d].\n", ua.VariantArrayDimensions, ua.VariantArrayValues)
 	fmt.Fprintf(&b, "Definition go_datavalue_masks : list Z := [%d; %d; %d; %d; %d; %d].\n", ua.DataValueValue, ua.DataValueStatusCode, ua.DataValueSourceTimestamp, ua.DataValueServerTimestamp, ua.DataValueSourcePicoseconds, ua.DataValueServerPicoseconds)
 	fmt.Fprintf(&b, "Definition go_diag_masks : list Z := [%d; %d; %d; %d; %d; %d; %d].\n", ua.DiagnosticInfoSymbolicID, ua.DiagnosticInfoNamespaceURI, ua.DiagnosticInfoLocalizedText, ua.DiagnosticInfoLocale, ua.DiagnosticInfoAdditionalInfo, ua.DiagnosticInfoInnerStatusCode, ua.DiagnosticInfoInnerDiagnosticInfo)
